@@ -30,12 +30,19 @@ prop(
 AOL_RULE = ("aol profile: histories of blocks over 4 funded accounts plus key-less/malformed address strings; messages "
             "CreateTopic/AddWriter/DeleteWriter/AddRecord (with and without fee payer), bank sends, authz Grant/Revoke and MsgExec "
             "wrapping; ~65% of transactions well-formed with their natural signers, the rest with boundary/malformed fields, wrong, "
-            "extra or swapped signers and unaffordable fees; after every block the aol store dump and sampled Record/Topic/Writer "
+            "extra or swapped signers and unaffordable fees; topic names from a small set that contains prefixes and extensions of "
+            "one another, dotted sub-names of topics the signer already owns, and out-of-limit names (empty, 71, 255, 256, 300, 5000, "
+            "5001 characters, characters outside the set); in 20% of the appends a writer listed on one topic writes to another "
+            "(preferably related) topic of the same owner; a named fee payer is sometimes replaced by the owner among the signers; 15% "
+            "of the histories contain a burst of 11-15 further topics of one owner, 20% a burst of 11-18 records; after every block the aol store dump and sampled Record/Topic/Writer "
             "queries are compared with the extracted model; monitors run on the implementation alone. A history is non-trivial if it "
             "contains at least one accepted and one rejected transaction; distinct = distinct history texts")
-DID_RULE = ("did profile: 5 DIDs x 4 secp256k1 keys; documents in 12 shapes (key under authentication by reference / dedicated, only "
-            "under assertionMethod, only as verification method, Ed25519 type, rich document, malformed ids/base58/relationships, "
-            "no authentication); create/update(rotation)/deactivate with real signatures, wrong sequences, signatures over other "
+DID_RULE = ("did profile: 5 DIDs x 4 secp256k1 keys; documents in 13 shapes (key under authentication by reference / dedicated, only "
+            "under assertionMethod, only as verification method, Ed25519 type, rich document — controller list naming the DID itself "
+            "and/or another registered DID, 1-12 services with repeating ids —, malformed ids/base58/relationships, no authentication, "
+            "further keys under capabilityInvocation / capabilityDelegation / keyAgreement only); a DID named as controller signs "
+            "updates with its own key, method id and sequence; keys listed without control sign under their own method id; creates on a "
+            "tombstone signed by the last key over the tombstone's sequence; create/update(rotation)/deactivate with real signatures, wrong sequences, signatures over other "
             "content, tampered/empty signatures, did field != document id, empty-id and missing documents, verbatim replays through "
             "other relayers, another method id of the stored document named, keys the stored document lists without giving them control "
             "signing in the name of the controlling method, DID fields that extend or shorten the document id; two further DIDs of 42 and "
@@ -136,7 +143,9 @@ prop(id="C15", vfile="Properties/C15.v",
 BURN_RULE = ("burn profile: blocks in which the burn address (and, as controls, ordinary accounts) receives coins by MsgSend (1-3 per "
              "block, two denominations, amounts 0/1/dust/huge), by MsgMultiSend (one input; outputs to the burn address and to an ordinary "
              "account, also not adding up or without outputs), by MsgCreateVestingAccount at the burn address (delayed, end time before/"
-             "after later blocks, then topped up) and as MsgExec inner sends, interleaved with AOL traffic and fee payments; after every "
+             "after later blocks, then topped up) and as MsgExec inner sends, interleaved with AOL traffic and fee payments; 12% of the chains "
+             "carry 24 further denominations of which 17-24 reach the burn address within one block (one send or one per denomination); "
+             "in 30% of the histories coins are sent to the module accounts (burn, fee collector, mint) before the first burn; after every "
              "block the monitor reads, on the implementation alone, the spendable/locked/total balance of the burn address, the supply of "
              "every denomination, all other balances touched only by the burn, and runs the registered x/crisis invariants; the B lines "
              "(spendable at the burn address, supply deltas) and T lines (per-transaction balance deltas) are compared with the model")
@@ -158,8 +167,10 @@ TOTAL_RULE = ("total profile (by shape, not random): a populated chain built in 
               "UTF-8} x topic in {stored, empty, absent, 255, 256, 10000 bytes, invalid UTF-8, NUL}, offsets {0,1,2^63,2^64-1}, DIDs/denom "
               "ids/token ids of the same shapes, and pagination requests with key in {nil, empty, each stored key, absent, below all, above "
               "all, prefix} x offset {0,1,2,2^64-1} x limit {0,1,2,100,2^63,2^64-1} x count_total x reverse; a recovered panic surfaces as "
-              "ABCI code 111222. keystore profile: 67 key files (valid, wrong password, every parameter absent/zero/negative/huge, short and "
-              "long iv/salt/mac/ciphertext, non-hex, non-JSON, empty) loaded by the real Load and by the model. valid profile: see C16")
+              "ABCI code 111222 and is flagged (C17-handler-panic). keystore profile: 85 key files (valid, wrong password, every parameter "
+              "absent/zero/negative/huge, short and long iv/salt/mac/ciphertext, non-hex, non-JSON, empty; files as other Web3-secret-storage "
+              "tools write them: scrypt with n/r/p complete, zero, missing, huge or non-numeric, unknown kdfs) loaded by the real Load and "
+              "by the model. valid profile: see C16")
 prop(id="C17", vfile="Properties/C17.v",
      runs=lambda tier, seed: [dict(profile="total", seed=seed, n=_sizes(tier, 3, 40)),
                               dict(profile="keystore", seed=seed, n=_sizes(tier, 1, 4)),
@@ -248,7 +259,7 @@ prop(id="C09", vfile="Properties/C09.v",
 
 
 UPGRADE_RULE = ("upgrade profile: a chain populated by the aol / pnft / did generators; in a random block the plan of the last entry of app.Upgrades "
-                "is scheduled for the next height (in a third of the aol / did histories: the plan of an earlier entry this binary also has a "
+                "is scheduled for the next height (AOL states always hold a topic of one name under three owners, two of them with writers; in a third of the aol / did histories: the plan of an earlier entry this binary also has a "
                 "handler for and can load the disk of — v2.2.0 —, after the stores that entry adds have been emptied and their modules removed "
                 "from the recorded version map, as on a chain that skipped releases); before scheduling, the recorded versions of the custom "
                 "modules are set to the baseline of the previous releases (all 1), so that a version step without a migration halts the "
